@@ -713,6 +713,65 @@ def stage_bounds(ctx, rec, exprs, metas):
                           dict(kind="explore", strategy=skind, problem=pb))
 
 
+def stage_on_bound(ctx, rec, exprs, metas):
+    """the guess of one parameter lies EXACTLY on a bound of its Uniform prior (legal: the constructor accepts it), the
+    generating value a few percent inside: the fit must not get worse, must stay inside, and has to recover"""
+    import numpy as np
+    rng = ctx.subrng("on-bound")
+    combos = [("nmpfit", w, sd) for w in ("r", "alpha", "center.2") for sd in ("hi", "lo")] + [("scipy", "r", "hi"), ("scipy", "alpha", "lo")]
+    for k in range(ctx.n(2 * len(combos), 6 * len(combos))):
+        skind, which, side = combos[(k // 2) % len(combos)]        # each combination with the others at the truth (k even) and perturbed
+        pb = gen_problem(rng, "mie", "uniform", size=12)
+        t = pb["truth"][which]
+        g = t * (1.03 if side == "hi" else 0.97)
+        lo, hi = (t * 0.8, g) if side == "hi" else (g, t * 1.2)
+        if k % 2 == 0:
+            pb["start"] = dict(pb["truth"])       # only the parameter on the bound is off; otherwise all start <= 3% off
+        pb["start"][which] = g
+        model = build_model(pb, pb["start"], {which: dict(kind="U", lo=lo, hi=hi, sd=0.05 * t)})
+        data = make_data(pb)
+        strategy = make_strategy(skind, None)
+        info = dict(kind="on-bound", strategy=skind, which=which, side=side, bounds=[lo, hi], truth=t, problem=pb)
+        ctx.explored += 1
+        ctx.count("on-bound:%s:%s" % (skind, side))
+        ctx.nontriv(("on-bound", skind, which, side))
+        try:
+            result = do_fit(strategy, model, data, rec)
+        except Exception as e:  # noqa
+            ctx.violation("on-bound:%s:raises" % skind, "a fit whose guess for %s lies exactly on the %s bound of its Uniform prior raises "
+                          "%s: %s" % (which, "upper" if side == "hi" else "lower", type(e).__name__, str(e)[:120]), info)
+            continue
+        names = list(model._parameter_names)
+        vals = [float(result.parameters[nm]) for nm in names]
+        out = [nm for nm, p, v in zip(names, model._parameters, vals) if not inside(p, v)]
+        if out:
+            ctx.violation("on-bound:%s:bounds" % skind, "fitted value outside its prior's bounds: %s" % out, dict(values=vals, **info))
+        startv = [float(p.guess) for p in model._parameters]
+        noise = float(model._find_noise(startv, data))
+        if not chisq(model, vals, data, noise) <= chisq(model, startv, data, noise) * (1 + 1e-9):
+            ctx.violation("on-bound:%s:never-worse" % skind, "misfit at the result exceeds the misfit at the guess (guess on a bound)",
+                          dict(values=vals, **info))
+        err = max(abs(v - pb["truth"][nm]) / abs(pb["truth"][nm]) for nm, v in zip(names, vals))
+        # recovery is asked for when only the parameter on the bound is off (measured: 1e-12 on the unchanged tree); with all
+        # parameters perturbed AND one of them confined to a 3% wide strip the optimiser may settle in a neighbouring
+        # valley of the r / z / alpha degeneracy (2.5% seen on the unchanged tree): convergence is not demanded there
+        if k % 2 == 0 and not err <= 1e-3:
+            ctx.violation("on-bound:%s:%s:recovery" % (skind, side), "generating parameters not recovered to 1e-3 when the guess of %s lies "
+                          "exactly on the %s bound of its prior (truth 3%% inside, all other parameters start at the truth); relative "
+                          "error %.3g" % (which, "upper" if side == "hi" else "lower", err), dict(values=vals, rel_err=err, **info))
+        # in every case: the result must not sit ON the bound it started from while the misfit decreases towards the interior
+        iv = names.index(which)
+        bound = hi if side == "hi" else lo
+        if abs(vals[iv] - bound) <= 1e-12 * abs(bound):
+            inward = list(vals)
+            inward[iv] = bound * (1 - 1e-4) if side == "hi" else bound * (1 + 1e-4)
+            c0, c1 = chisq(model, vals, data, noise), chisq(model, inward, data, noise)
+            if c1 < c0 * (1 - 1e-6):
+                ctx.violation("on-bound:%s:%s:pegged" % (skind, side), "the fitted %s is still exactly on the %s bound it started from although "
+                              "the misfit decreases towards the interior (chi^2 %.6g -> %.6g for a 1e-4 step)"
+                              % (which, "upper" if side == "hi" else "lower", c0, c1), dict(values=vals, chisq=[c0, c1], **info))
+
+
 def stage_reuse(ctx, rec, exprs, metas):
     """one strategy object over a sequence of different models / data, fits that raise included:
     scratch-attribute trace vs the Coq state machine, and every result = a fresh strategy's"""
@@ -807,6 +866,7 @@ def run(ctx):
     try:
         guarded(ctx, "cases", stage_cases, ctx, rec, exprs, metas, tmpdir)
         guarded(ctx, "bounds", stage_bounds, ctx, rec, exprs, metas)
+        guarded(ctx, "on-bound", stage_on_bound, ctx, rec, exprs, metas)
         guarded(ctx, "reuse", stage_reuse, ctx, rec, exprs, metas)
     finally:
         undo()
